@@ -435,3 +435,44 @@ def ge9(P, C):
     C.ob("GE-9", "slicemultiply", "flatten", bool(flat and flat[1]), f.loc(flat[0]) if flat else f.where(), flat[2] if flat else "the flattening loop was not found")
     C.ob("GE-9", "slicemultiply", "unflatten-is-the-inverse", bool(unflat and unflat[1]), f.loc(unflat[0]) if unflat else f.where(),
          unflat[2] if unflat else "the un-flattening loop was not found")
+
+
+def ge10(P, C):
+    """GE-10: ndsparse::insertEntry stores the value and every index of the entry in the slot it then advances past."""
+    C.rule("GE-10", "ndsparse::insertEntry refuses a full array, stores the value in x[entriesInserted] and, for every dimension j < ndim, the index "
+           "in i[j][entriesInserted] (growing ranges[j] to cover it), and advances entriesInserted once, after the stores: the sparse arrays "
+           "that grid evaluation and the fit read hold each entry's value and its whole index tuple in the same slot", floor=5)
+    fs_ = [f for f in P.fns("insertEntry") if (f.cls or "").endswith("ndsparse")]
+    if len(fs_) != 1:
+        raise core.AnalysisBroken("GE-10: ndsparse::insertEntry: %d definitions" % len(fs_))
+    f = fs_[0]
+    R = lambda x: f.alpha(x)[0].replace(" ", "").replace("this->", "")      # noqa: E731
+    kids = f.ch(f.body) if f.k(f.body) == "CompoundStmt" else []
+    guard = [x for x in kids if f.k(x) == "IfStmt" and core.then_throws(f, x)]
+    gtxt = [R(f.nodes[x]["cond"]) for x in guard]
+    C.ob("GE-10", "insertEntry", "full-array-refused", any(t in ("(!(entriesInserted<rows))", "(rows<=entriesInserted)", "(entriesInserted==rows)") for t in gtxt) and
+         bool(guard) and kids.index(guard[0]) == 0, f.loc(guard[0]) if guard else f.where(), "throws when entriesInserted is not below rows, before any store: %s" % gtxt)
+    stores = [x for x in f.walk() if f.k(x) in ("BinaryOperator",) and f.nodes[x].get("op") == "="]
+    texts = {x: R(x) for x in stores}
+    val = [x for x, t in texts.items() if t == "(x[entriesInserted]=$0)"]
+    C.ob("GE-10", "insertEntry", "value-stored", len(val) == 1, f.loc(val[0]) if val else f.where(), "x[entriesInserted] = value: %s" % sorted(texts.values()))
+    idx = [x for x, t in texts.items() if re.match(r"^\(i\[v0\]\[entriesInserted\]=\$1\[v0\]\)$", t)]
+    loop = next((a for a in f.ancestors(idx[0]) if f.k(a) == "ForStmt"), None) if idx else None
+    lok = False
+    if loop is not None:
+        n = f.nodes[loop]
+        ini, cond, inc = (f.alpha(n[k])[0].replace(" ", "").replace("this->", "") if n.get(k, -1) >= 0 else "" for k in ("init", "cond", "inc"))
+        lok = ini.endswith("v0=0)") or ini.endswith("v0=0")
+        lok = lok and cond in ("(v0<ndim)", "(v0!=ndim)") and inc in ("(v0++)",)
+    C.ob("GE-10", "insertEntry", "every-index-stored", len(idx) == 1 and lok, f.loc(idx[0]) if idx else f.where(),
+         "i[j][entriesInserted] = indices[j] for j = 0 .. ndim-1 (store found: %s, loop over all dimensions: %s)" % (bool(idx), lok))
+    rng = [x for x, t in texts.items() if t in ("(ranges[v0]=max(ranges[v0],(i[v0][entriesInserted]+1)))", "(ranges[v0]=max(ranges[v0],($1[v0]+1)))",
+                                                  "(ranges[v0]=max((i[v0][entriesInserted]+1),ranges[v0]))")]
+    C.ob("GE-10", "insertEntry", "range-covers-index", len(rng) == 1 and loop is not None and loop in list(f.ancestors(rng[0])), f.loc(rng[0]) if rng else f.where(),
+         "ranges[j] grows to index+1")
+    adv = [x for x in f.walk() if (f.k(x) == "UnaryOperator" and f.nodes[x].get("op") in ("++", "--") and "entriesInserted" in f.render(x)) or
+           (f.k(x) in ("BinaryOperator", "CompoundAssignOperator") and f.nodes[x].get("op", "").endswith("=") and f.nodes[x]["op"] not in ("==", "<=", ">=", "!=")
+            and f.render(f.nodes[x]["ch"][0]).replace("this->", "") == "entriesInserted")]
+    ok = len(adv) == 1 and adv[0] in kids and kids.index(adv[0]) == len(kids) - 1 and R(adv[0]) == "(entriesInserted++)"
+    C.ob("GE-10", "insertEntry", "advanced-once-after-the-stores", ok, f.loc(adv[0]) if adv else f.where(),
+         "entriesInserted++ is the last statement and the only change of the counter: %d change(s)" % len(adv))
